@@ -44,6 +44,15 @@ class Modes:
         if isinstance(e, ast.Compare) and len(e.ops) == 1 and isinstance(e.ops[0], (ast.Is, ast.IsNot)) and \
                 isinstance(e.comparators[0], ast.Constant) and e.comparators[0].value is None:
             is_none = isinstance(e.ops[0], ast.Is) == pol
+            # (A if T else None) is not None  =>  T and A is not None
+            if isinstance(e.left, ast.IfExp) and not is_none:
+                ie = e.left
+                for branch, other, bpol in ((ie.body, ie.orelse, True), (ie.orelse, ie.body, False)):
+                    if isinstance(other, ast.Constant) and other.value is None:
+                        out |= self._implies(ie.test, bpol, f, at, max(depth, 1))
+                        sub = ast.Compare(left=branch, ops=[ast.IsNot()], comparators=[ast.Constant(value=None)])
+                        out |= self.atom_modes(sub, True, f, at, depth=max(depth, 1) + 1)
+                return out
             k = self._subject(e.left)
             if k == "metrics":
                 out.add("metrics=off" if is_none else "metrics=on")
